@@ -34,6 +34,9 @@ add("C18", "reference-function runtime monitor over exhaustive integer windows a
     "Runtime exploration: per filter the integer-argument windows of DESIGN.md appendix A are enumerated completely (slice bounds, widths, digits, floatformat arguments, widthratio operands) and random texts/numbers/sequences are added; every result is compared with a small independent reference function. Held = no deviation on the applications observed.",
     "Trusts the reference functions (written from Django 1.7's documentation and the repository's pinned fixtures); inputs outside the judged domains of appendix A are not generated or counted as unjudged.")
 
+add("C08", "reference-resolver runtime monitor: generated access paths into nested Go context values, observed through {{ }}, {% if %} and |length and compared with an independent reflect-based resolver of the property's rules",
+    "Runtime exploration: per case a nested context of structs/maps/slices/arrays/pointers/interfaces/functions of every accepted and rejected shape and 20 access paths (valid and invalid at every position, via dot, numeric step, call with fitted or perturbed arguments, final subscript expression) are classified by the reference resolver as value / empty / error and compared with the engine (canonical printing, truthiness, length, preserved error text); the same compiled call site is resolved against value and pointer receivers; shadowing (tag > context incl. nil entries > globals) is probed through with/for/macro/include. Held = no deviation on the paths observed.",
+    "Trusts the harness' reference resolver. Unspecified combinations (.name on sequences/strings, .N on maps/structs/strings, non-integer subscripts of sequences, pointer-to-pointer) are counted as unjudged (but still executed).")
 add("C09", "reference-interpreter runtime monitor: generated control-flow trees rendered by the engine and by an independent interpreter of the tree",
     "Runtime exploration: random nestings of if/elif/else, ifequal/ifnotequal, firstof, for (empty, reversed, sorted, key/value), forloop fields and Parentloop chains, cycle (all forms) and ifchanged (both forms) over lists, strings, maps, nil and scalars are rendered on a fresh compile and compared byte for byte with a reference interpreter. Held = no deviation on the programs observed.",
     "Trusts the 300-line reference interpreter. Unspecified corners are not generated: maps without 'sorted', forloop inside an empty branch, ifchanged in nested multi-iteration loops.")
@@ -49,6 +52,9 @@ add("C12", "reference-environment runtime monitor (probe variables around every 
 add("C13", "reference-binding runtime monitor for macro calls (local/imported/aliased variants must agree, two contexts per compiled template); recursion graphs observed from an isolating parent process with a counting context function",
     "Runtime exploration: random signatures/defaults/argument lists are rendered through four definition routes and compared with a reference binding; 19 recursion graphs without base case must end in an execution error (a stack overflow would kill the isolated worker and is reported), with the same depth on 2 compiles x 2 runs; terminating recursions repeated many times must succeed. Held = no deviation on the executions observed.",
     "Trusts the reference binding. Defaults referring to other parameters are not generated (unspecified).")
+add("C14", "fault-injection runtime monitor: recording io.Writer plus a context function failing on its k-th call, swept over every k and every writer-failure position; four entry points on fresh compiles",
+    "Runtime exploration with exhaustive fault positions per program: for every generated program the four Execute variants must agree on bytes and errors; for EVERY k the k-th evaluated output node fails and ExecuteWriter must not have called Write at all, the unbuffered writer must hold a prefix of the fault-free output, Execute/ExecuteBytes return nothing; for every j the caller's writer fails at its j-th Write and ExecuteWriter must return that very error; successful runs after failures are unchanged. Held = no deviation on the programs and fault positions observed.",
+    "Fault positions are complete per generated program (fault_enumeration within exploration); programs themselves are sampled.")
 add("C15", "metamorphic runtime monitor: marked document under options vs hand-stripped document under defaults vs output computed from the generator's structure; sibling templates in one set; repeated renders",
     "Runtime exploration: random documents with random whitespace runs and every subset of '-' markers are rendered under all four TrimBlocks x LStripBlocks settings (twice per compiled template, options set on the set or on one template of a shared set) and compared byte for byte with the hand-stripped source's rendering and with the directly computed expected output; spaceless bodies are compared with an independent whitespace-between-tags remover. Held = no deviation on the executions observed.",
     "Trusts the generator's own structure for hand-stripping (no parsing). Verbatim adjacency and comments directly next to a delimiter are not generated (unspecified by the property).")
@@ -56,6 +62,9 @@ add("C16", "runtime monitor over the lexer hook (exhaustive block sequences) and
     "Runtime exploration: all sequences of up to 5/6 lexer-significant blocks are lexed through the verif hook and every token position is checked against the source (exhaustive for that sub-space); 42 kinds of broken programs in random layouts and file-composition routes are compiled/executed and the error's Filename/Line/Column/Token are checked against the named source; inserted text must shift positions exactly. Held = no deviation on the executions observed (one known finding is listed in KNOWN_FINDINGS.txt).",
     "Trusts the position-to-offset mapping of the harness (byte or rune columns accepted). Errors of sender 'fromfile' are checked against the referring template (known finding quarantine).")
 
+add("C19", "event-log runtime monitor: harness-registered probe filters record (name, input, parameter); output compared with the composition of public ApplyFilter calls; fixed precedence/scope/registry probes",
+    "Runtime exploration: random chains (length 0-4) over probe filters and every deterministic registered filter with literal/variable/path parameters are written at 14 expression positions and in the filter tag; the probe log must equal the written order exactly once each, the output must equal the ApplyFilter composition (errors agree); fixed cases pin filter-vs-operator precedence, parameter evaluation in the current scope (loops, macros, repeated executions), unregistered names in 20 positions and the registry's refusals. Held = no deviation on the chains observed.",
+    "Registries are process-global; probes are registered once per worker. The random filter is excluded.")
 add("C20", "recorded client-boundary histories checked offline with porcupine v1.3.0 against a sequential map model (per-key partitioning), exactly-once fetch accounting on a recording loader, Go race detector",
     "Runtime exploration: sequential and concurrent (2-8 clients, barrier-separated phases, sleeping loader, GOMAXPROCS 2/4/16) histories over FromCache/CleanCache/Debug/content change/loader failure on 1-3 names and 1-2 sets are recorded with call/return stamps; every returned template is identified by pointer and by the content version it renders; porcupine decides linearizability against the cache model, loader fetches must equal templates created, templates must show their own set's globals/options, and the -race worker must report no engine race. Held = all observed histories linearizable.",
     "Trusts porcupine and the 60-line model. Debug/content/failure toggles are issued only at barriers in concurrent phases. A checker timeout (10 s per history) makes the run inconclusive (exit 2); none occurred on the unchanged tree.")
